@@ -146,10 +146,13 @@ where
                 cfgn.push(names[i]);
             }
         }
-        for fmtk in ["display", "debug", "alt_display", "alt_debug"] {
-            let d = Dot::with_config(g, &cfg);
-            let text = match fmtk { "display" => format!("{}", d), "debug" => format!("{:?}", d), "alt_display" => format!("{:#}", d), _ => format!("{:#?}", d) };
-            let fw = |w: &String| match fmtk { "display" | "alt_display" => format!("{}", w), _ => format!("{:?}", w) };
+        for fmtk in ["display", "debug", "alt_display", "alt_debug", "attr_display", "attr_debug"] {
+            // with_attr_getters: extra (benign) attributes after the label must not disturb the statements
+            let ea = |_: G, _: G::EdgeRef| "color = red".to_string();
+            let na = |_: G, _: G::NodeRef| "shape = box peripheries = 2".to_string();
+            let d = if fmtk.starts_with("attr") { Dot::with_attr_getters(g, &cfg, &ea, &na) } else { Dot::with_config(g, &cfg) };
+            let text = match fmtk { "display" | "attr_display" => format!("{}", d), "debug" | "attr_debug" => format!("{:?}", d), "alt_display" => format!("{:#}", d), _ => format!("{:#?}", d) };
+            let fw = |w: &String| match fmtk { "display" | "alt_display" | "attr_display" => format!("{}", w), _ => format!("{:?}", w) };
             let mut f = Fields::new();
             f.insert("kind".into(), json!("dot"));
             f.insert("cfg".into(), json!(cfgn));
